@@ -304,3 +304,25 @@ func HybridTs(tick int) uint64 { return uint64(BaseMs+int64(tick)) << 18 }
 func Tick(ts uint64) int { return int(int64(ts>>18) - BaseMs) }
 
 func TimeOfTick(tick int) time.Time { return time.UnixMilli(BaseMs + int64(tick)) }
+
+// Clock is a model-time <-> real-time mapping with its own origin: one model tick is one millisecond above Base.
+// The package-level HybridTs / Tick / TimeOfTick use the fixed origin BaseMs (November 2023, i.e. far behind every
+// wall clock); a Clock built by ClockWithLocal places the model ticks relative to the wall clock of THIS host, so that
+// a catalog's times (creation times, the TSO key) can lie behind, at or ahead of the local clock.
+type Clock struct{ Base int64 }
+
+// FixedClock is the mapping of the package-level functions.
+func FixedClock() Clock { return Clock{Base: BaseMs} }
+
+// ClockWithLocal returns the mapping under which the host clock reading hostNow is model tick localTick: a TSO key
+// written as TimeOfTick(now) is then (now-localTick) milliseconds ahead of the host's clock (behind, if negative).
+func ClockWithLocal(hostNow time.Time, localTick int) Clock {
+	return Clock{Base: hostNow.UnixMilli() - int64(localTick)}
+}
+
+func (c Clock) HybridTs(tick int) uint64 { return uint64(c.Base+int64(tick)) << 18 }
+
+// Tick returns the largest model tick whose hybrid timestamp is <= ts.
+func (c Clock) Tick(ts uint64) int64 { return int64(ts>>18) - c.Base }
+
+func (c Clock) TimeOfTick(tick int) time.Time { return time.UnixMilli(c.Base + int64(tick)) }
